@@ -70,8 +70,11 @@ CONSTANTS
                     \*       counter the holder saw (docs/proposed_fixes/C08.diff); FALSE: as coded (by id)
   SweepLocked,      \* TRUE: as coded - check_and_move_expired ignores locked_until, so a row whose
                     \*       LAST attempt is still in flight is moved; FALSE: proposed fix
-  ReplayDefaultLimit \* TRUE: as coded - replay_dlq omits max_attempts, the row gets SchemaMax;
+  ReplayDefaultLimit, \* TRUE: as coded - replay_dlq omits max_attempts, the row gets SchemaMax;
                     \*       FALSE: proposed fix - the row gets the queue's QMax
+  DanglingTxn       \* TRUE: as coded - move_to_dlq / replay_dlq return without COMMIT or ROLLBACK when the
+                    \*       row is gone, leaving the implicitly begun write transaction open on that
+                    \*       connection; FALSE: proposed fix - they roll back
 
 VARIABLES
   db,      \* last COMMITTED image of the database + ledger ghosts (see EmptyDb)
@@ -120,6 +123,8 @@ Init ==
 View(c)     == IF txn.owner = c THEN txn.img ELSE db     \* what c's connection reads
 CanWrite(c) == txn.owner \in {Nobody, c}                 \* one write transaction at a time (D3)
 Stage(c, img) == txn' = [owner |-> c, img |-> img]       \* a write statement inside c's transaction
+NotFound(c, v) ==                                        \* DELETE..RETURNING found nothing, the function returns
+  IF DanglingTxn THEN Stage(c, v) ELSE txn' = [owner |-> Nobody, img |-> EmptyDb]
 NoTxn       == txn.owner = Nobody
 
 Drop(f, k)  == [x \in DOMAIN f \ {k} |-> f[x]]
@@ -272,7 +277,7 @@ MoveDelete(c) ==
             /\ Set(c, [cl[c] EXCEPT !.pc = "mv_ins", !.tmp = <<i, v.rows[i]>>])
             /\ L("MoveDelete", c, i, <<TRUE>>)
        ELSE \* (check_and_move_expired counts the rows it selected, also when move_to_dlq found nothing)
-            /\ Stage(c, v)
+            /\ NotFound(c, v)
             /\ IF rest = <<>> THEN /\ Set(c, Done(c)) /\ L("MoveDelete", c, i, <<FALSE, "ret", cl[c].moved + 1>>)
                ELSE /\ Set(c, [cl[c] EXCEPT !.todo = rest, !.moved = @ + 1]) /\ L("MoveDelete", c, i, <<FALSE>>)
   /\ UNCHANGED <<db, cnt>>
@@ -302,7 +307,7 @@ ReplayDelete(c, d) ==
                /\ cnt' = [cnt EXCEPT !.replays = @ + 1]
                /\ L("ReplayDelete", c, d, <<TRUE>>)
           ELSE /\ cnt.notfound < MaxNotFound
-               /\ Stage(c, v)
+               /\ NotFound(c, v)
                /\ Set(c, Done(c))
                /\ cnt' = [cnt EXCEPT !.notfound = @ + 1]
                /\ L("ReplayDelete", c, d, <<FALSE, "ret", FALSE>>)
@@ -447,6 +452,10 @@ ReplayUnchanged ==
      /\ i \in DOMAIN db'.rows /\ d \in DOMAIN db.dlq /\ d \notin DOMAIN db'.dlq
      /\ db'.rows[i].msg = db.dlq[d].msg /\ db'.rows[i].att = 0 /\ db'.rows[i].ver = 0
      /\ db'.rows[i].maxAtt = QMax /\ ~db'.rows[i].lock /\ ~db'.rows[i].delayed
+
+(* Observation O1 (not part of C08): no connection sits idle inside a write transaction.  False as
+   coded (DanglingTxn); used to obtain the shortest history that shows it. *)
+NoDanglingTxn == IF txn.owner = Nobody THEN TRUE ELSE cl[txn.owner].pc # "idle"
 
 (* A sweep moves a row with its attempts count and payload, and only a row at its limit. *)
 MoveKeeps ==
